@@ -452,6 +452,7 @@ int vd_run(decoder_t *d, const vd_audio *a, vh_rng *r, const vd_pattern *p, vd_p
             }
             if (pos + len > a->n) len = a->n - pos;
             ns = p->no_search_chunks < 0 || chunkno < p->no_search_chunks;
+            vh_note("      chunk %ld: %ld samples%s", chunkno, len, ns ? " (no_search)" : "");
             rv = feed(d, a, pos, len, p->use_float, ns, 0, fbuf);
             ++info->ncalls; ++chunkno; pos += len;
             if (rv < 0) { info->failed = 1; break; }
